@@ -155,7 +155,7 @@ Qed.
 Lemma id_le_stub : forall x, id_ok x -> id_le x stub_id = true.
 Proof.
   intros [m r] [Hm Hr]. unfold id_le, stub_id, u64max, two64 in *. simpl in *.
-  destruct (Z.eqb_spec m (18446744073709551616 - 1)); [apply Z.leb_le|apply Z.ltb_lt]; lia.
+  match goal with |- context [?a =? ?b] => destruct (Z.eqb_spec a b) end; [apply Z.leb_le|apply Z.ltb_lt]; lia.
 Qed.
 
 Lemma id_le_refl : forall x, id_le x x = true.
@@ -174,7 +174,8 @@ Qed.
 Lemma last_nth' : forall (l : list id) d, last l d = nth (length l - 1) l d.
 Proof.
   induction l as [|a l IH]; intros d; [reflexivity|].
-  destruct l as [|b l]; [reflexivity|]. rewrite IH. simpl length.
+  destruct l as [|b l]; [reflexivity|]. change (last (a :: b :: l) d) with (last (b :: l) d).
+  rewrite IH. simpl length.
   replace (S (S (length l)) - 1)%nat with (S (S (length l) - 1)) by lia. reflexivity.
 Qed.
 
@@ -195,11 +196,11 @@ Proof.
   - destruct fuel as [|k]; [lia|]. rewrite chunk_mins_S.
     destruct ids as [|x ids']; [simpl in Hb; lia|]. set (ids := x :: ids') in *.
     cbn [nth]. rewrite last_nth'. rewrite firstn_length.
-    rewrite nth_firstn' by lia. f_equal. lia.
+    rewrite nth_firstn' by lia. f_equal; lia.
   - destruct fuel as [|k]; [lia|]. rewrite chunk_mins_S.
     destruct ids as [|x ids']; [simpl in Hb; lia|]. set (ids := x :: ids') in *.
     cbn [nth]. rewrite IH; [|lia|rewrite skipn_length; lia].
-    rewrite nth_skipn'. rewrite skipn_length. f_equal. lia.
+    rewrite nth_skipn'. rewrite skipn_length. f_equal; lia.
 Qed.
 
 Lemma rid_shortcut : forall c x : id, id_ok c ->
@@ -237,7 +238,7 @@ Proof.
   set (b := Z.to_nat bi).
   assert (Hsort : forall p q, (p <= q)%nat -> (q < length tbl)%nat ->
                   id_le (nth q tbl stub_id) (nth p tbl stub_id) = true).
-  { intros p q Hpq Hq. apply tbl_sorted; auto. rewrite <- Hlen. exact Hq. }
+  { intros p q Hpq Hq. apply tbl_sorted; auto; try (rewrite <- Hlen; exact Hq). }
   (* minimum of the LID's own block *)
   assert (M1 : id_at (min_block_ids tbl) bi = nth (Nat.min ((b + 1) * ipb) (length tbl) - 1) tbl stub_id).
   { unfold id_at, min_block_ids. fold b. apply chunk_mins_nth; unfold b; nia. }
@@ -334,16 +335,17 @@ Qed.
 (* ------------------------------------------------------------------ FilterInRange + borders *)
 Definition mids_of (ids : list id) : list Z := map fst ids.
 
-(* a fraction as the store holds it: IDs descending, MIDs below 2^63, and its Info is the one of an
-   active fraction or the one written by Seal (also after Save / Load, which restores it
+(* a fraction as the store holds it: IDs descending, MIDs below 2^63; a sealed fraction compares IDs
+   through the block minima and carries the Info written by Seal, an active one compares directly
+   and carries the border-only Info (also after Save / Load, which restores it
    unchanged: C14_intersect_sound) *)
 Record frac_ok (f : fraction) : Prop := {
   fo_ids : ids_ok (f_ids f);
   fo_sorted : desc_sorted (f_ids f);
   fo_mids : docs_ok (mids_of (f_ids f));
   fo_info : exists creation, is_u64 creation /\
-            (f_info f = active_info creation (mids_of (f_ids f)) \/
-             f_info f = sealed_info creation (mids_of (f_ids f)))
+            f_info f = if f_sealed f then sealed_info creation (mids_of (f_ids f))
+                       else active_info creation (mids_of (f_ids f))
 }.
 
 Lemma pruned_fraction_empty : forall f qf qt,
@@ -357,7 +359,7 @@ Proof.
   apply Z.leb_le in E1. apply Z.leb_le in E2.
   assert (Hin : In (fst x) (mids_of (f_ids f))) by (apply in_map; exact Hx).
   destruct (intersect_sound c (mids_of (f_ids f)) (fst x) qf qt Hc Hm Hin H0 E1 E2) as [A [B _]].
-  destruct Hi as [Hi|Hi]; rewrite Hi in Hf; congruence.
+  rewrite Hi in Hf. destruct (f_sealed f); congruence.
 Qed.
 
 (* thm:C14_pruning_is_optimisation *)
@@ -390,5 +392,5 @@ Proof.
   destruct (intersect_sound c _ (fst x) lo hi Hc Hm Hin H0 H1 H2) as [A [B _]].
   destruct (intersect_sound c _ (fst x) (fst x) (fst x) Hc Hm Hin ltac:(lia) ltac:(lia) ltac:(lia))
     as [A' [B' _]].
-  destruct Hi as [Hi|Hi]; rewrite Hi; auto.
+  rewrite Hi. destruct (f_sealed f); auto.
 Qed.
